@@ -14,7 +14,8 @@ re-raises with a bare `raise` -- the value / error of the formula is that of its
 the original exception is on its way out.
 
 arg = ["k", i] | ["dec", i] | ["c", v]     (i is a 1-based parameter index)
-spelling = "pos" | "kw" | "sub" | "value"   (how the call is written)
+spelling = "pos" | "kw" | "kwr" | "sub" | "value"   (how the call is written; "kwr" = keywords in
+                                                     reverse declaration order)
 
 The same record always renders to the same text for a given cells name, so a
 projection can map `formula.source` back to the record id.
@@ -44,9 +45,10 @@ def call_src(op, ps, callee_params):
     path, args, sp = op[1], op[2], op[3]
     tgt = ".".join(path)
     argtxt = [arg_src(a, ps) for a in args]
-    if sp == "kw" and callee_params is not None and len(callee_params) >= len(args):
-        txt = "%s(%s)" % (tgt, ", ".join(
-            "%s=%s" % (callee_params[i], argtxt[i]) for i in range(len(args))))
+    if sp in ("kw", "kwr") and callee_params is not None and len(callee_params) >= len(args):
+        order = range(len(args)) if sp == "kw" else range(len(args) - 1, -1, -1)
+        txt = "%s(%s)" % (tgt, ", ".join(          # ("kwr": keywords in reverse declaration order)
+            "%s=%s" % (callee_params[i], argtxt[i]) for i in order))
     elif sp == "sub" and len(args) >= 1:
         txt = "%s[%s]" % (tgt, ", ".join(argtxt))
     elif sp == "value" and len(args) == 0:
